@@ -222,6 +222,10 @@ struct Ctl {
     last_buf: Vec<i64>,
     hash_to_key: HashMap<u64, i64>,
     last_acks: HashMap<i64, (bool, i64)>,
+    /// a caller that was let into a send on the FULL command queue and is (as it must be) blocked in it: (role, C_Send's argument)
+    blocked: Option<(String, i64)>,
+    /// sends on a full queue may be entered (the schedule asks for it)
+    full_send: bool,
 }
 
 impl Ctl {
@@ -291,7 +295,8 @@ impl Ctl {
         let (site, arg) = match self.site_of(role) { Some(pair) => pair, None => return false };
         match site.as_str() {
             "C_Idle" => cursor.get(role).copied().unwrap_or(0) < programs.get(role).map(|program| program.len()).unwrap_or(0),
-            "C_Send" => (state.qlen as usize) < self.cfg.qsize || matches!(self.sched.status("worker"), Some(Status::Exited { .. })),
+            "C_Send" => (state.qlen as usize) < self.cfg.qsize || matches!(self.sched.status("worker"), Some(Status::Exited { .. }))
+                || (self.full_send && self.blocked.is_none()),
             "W_Recv" | "W_Drain" => state.qlen > 0,
             "R_Recv" => state.chlen > 0,
             "C_ShutPolicy" => (state.chlen as usize) < ACCESS_CHANNEL_CAPACITY,
@@ -302,7 +307,9 @@ impl Ctl {
     }
 
     fn pcs(&self) -> BTreeMap<String, String> {
-        self.sched.statuses().into_iter().map(|(role, status)| (role, match status {
+        self.sched.statuses().into_iter().map(|(role, status)| (role.clone(), match status {
+            // (the blocked sender's step is recorded when it has come loose; until then it is still at its send)
+            _ if self.blocked.as_ref().map(|blocked| blocked.0 == role).unwrap_or(false) => "C_Send".to_string(),
             Status::Running => "RUN".to_string(),
             Status::Parked { site, .. } => site,
             Status::Exited { panicked } => if panicked { "DEAD".to_string() } else { "END".to_string() },
@@ -403,6 +410,7 @@ impl<'a> Driver<'a> {
             sched: sched.clone(), shared: shared.clone(), clock: clock.clone(), cfg: cfg.clone(),
             ack_numbers: HashMap::new(), ack_handles: Vec::new(), current_op: HashMap::new(),
             sweeper_holds: None, last_ttl: Vec::new(), last_used: 0, last_buf: Vec::new(), hash_to_key: HashMap::new(), last_acks: HashMap::new(),
+            blocked: None, full_send: false,
         };
         let _ = &ctl.hash_to_key;
         let mut step_no: i64 = 0;
@@ -412,7 +420,7 @@ impl<'a> Driver<'a> {
         self.emit(&StepRec {
             t: "reset".to_string(), run: self.run_no, i: 0, actor: "env".to_string(), site: "E_Init".to_string(), arg: 0,
             next: "".to_string(), narg: 0, op: idle_op(), ret: RetRec { st: -1, v: -1, exp: -1, ..Default::default() }, ev: Vec::new(), truth: Vec::new(), freq: scenario.freq.iter().map(|(key, count)| vec![*key, *count as i64]).collect(),
-            pc: ctl.pcs(), s: state.clone(), cfg: Some(cfg.clone()),
+            pc: ctl.pcs(), s: state.clone(), unb: 0, cfg: Some(cfg.clone()),
         });
 
         let mut cursor: HashMap<String, usize> = HashMap::new();
@@ -420,12 +428,14 @@ impl<'a> Driver<'a> {
         let max_steps = if scenario.max_steps == 0 { 20000 } else { scenario.max_steps };
         let mut stuck = false;
 
-        let (mut rng, stall_sweeper, stall_consumer, advance_pct, max_advance, sweeper_pct, sticky_pct, worker_pct) = match &scenario.schedule {
-            Schedule::Random { seed, stall_sweeper, stall_consumer, advance_pct, max_advance, sweeper_pct, sticky_pct, worker_pct } =>
+        let (mut rng, stall_sweeper, stall_consumer, advance_pct, max_advance, sweeper_pct, sticky_pct, worker_pct, full_send_pct) = match &scenario.schedule {
+            Schedule::Random { seed, stall_sweeper, stall_consumer, advance_pct, max_advance, sweeper_pct, sticky_pct, worker_pct, full_send_pct } =>
                 (StdRng::seed_from_u64(*seed), *stall_sweeper, *stall_consumer, *advance_pct, (*max_advance).max(1), *sweeper_pct, *sticky_pct,
-                 if *worker_pct == 0 { 100 } else { *worker_pct }),
-            Schedule::List { .. } => (StdRng::seed_from_u64(0), false, false, 0, 1, 100, 0, 100),
+                 if *worker_pct == 0 { 100 } else { *worker_pct }, *full_send_pct),
+            Schedule::List { .. } => (StdRng::seed_from_u64(0), false, false, 0, 1, 100, 0, 100, 100),
         };
+        ctl.full_send = full_send_pct > 0;
+        let mut held_events: Vec<crate::sched::Ev> = Vec::new();
         let mut last_actor: Option<String> = None;
         let list: Option<Vec<ListStep>> = match &scenario.schedule { Schedule::List { steps, .. } => Some(steps.clone()), _ => None };
         let then_drain = match &scenario.schedule { Schedule::List { then_drain, .. } => *then_drain, _ => true };
@@ -439,7 +449,14 @@ impl<'a> Driver<'a> {
             // ---- choose
             let mut choice: Option<(String, i64)> = None; // (actor, advance)
             let in_list = list.as_ref().map(|steps| list_pos < steps.len()).unwrap_or(false);
-            if in_list {
+            // a sender that was blocked on the full queue has come loose: its step is recorded now
+            let resumed = match &ctl.blocked {
+                Some((role, _)) => !matches!(sched.status(role), Some(Status::Running)),
+                None => false,
+            };
+            if resumed {
+                choice = Some((ctl.blocked.as_ref().unwrap().0.clone(), 0));
+            } else if in_list {
                 let steps = list.as_ref().unwrap();
                 let step = &steps[list_pos];
                 list_pos += 1;
@@ -455,7 +472,7 @@ impl<'a> Driver<'a> {
                         self.emit(&StepRec {
                             t: "note".to_string(), run: self.run_no, i: step_no, actor: step.a.clone(), site: "E_Infeasible".to_string(), arg: 0,
                             next: at.unwrap_or_default(), narg: 0, op: idle_op(), ret: RetRec { st: -1, v: -1, exp: -1, ..Default::default() },
-                            ev: Vec::new(), truth: Vec::new(), freq: Vec::new(), pc: ctl.pcs(), s: state.clone(), cfg: None,
+                            ev: Vec::new(), truth: Vec::new(), freq: Vec::new(), pc: ctl.pcs(), s: state.clone(), unb: 0, cfg: None,
                         });
                         list_pos = steps.len();
                         continue;
@@ -471,6 +488,7 @@ impl<'a> Driver<'a> {
                         "sweeper" => if stall_sweeper && site == "S_Tick" { 0 } else if site == "S_Tick" { sweeper_pct.max(1) } else { 100 },
                         "consumer" => if stall_consumer { 0 } else { 100 },
                         "worker" => if site == "W_Recv" { worker_pct } else { worker_pct.max(30) },
+                        _ if site == "C_Send" && (state.qlen as usize) >= cfg.qsize && !matches!(sched.status("worker"), Some(Status::Exited { .. })) => full_send_pct,
                         _ => {
                             if site == "C_Poll" {
                                 let op = ctl.current_op.get(role).cloned().unwrap_or_default();
@@ -542,12 +560,14 @@ impl<'a> Driver<'a> {
                 self.emit(&StepRec {
                     t: "step".to_string(), run: self.run_no, i: step_no, actor, site: "E_Advance".to_string(), arg: advance,
                     next: "E_Advance".to_string(), narg: 0, op, ret: RetRec { st: -1, v: -1, exp: -1, ..Default::default() }, ev: Vec::new(), truth: Vec::new(), freq: Vec::new(),
-                    pc: ctl.pcs(), s: state.clone(), cfg: None,
+                    pc: ctl.pcs(), s: state.clone(), unb: 0, cfg: None,
                 });
                 continue;
             }
-            let (site, arg) = ctl.site_of(&actor).unwrap();
-            schedule_log.push(ListStep { a: actor.clone(), s: site.clone(), d: 0 });
+            let (site, arg) = if resumed { ("C_Send".to_string(), ctl.blocked.as_ref().unwrap().1) } else { ctl.site_of(&actor).unwrap() };
+            if !resumed { schedule_log.push(ListStep { a: actor.clone(), s: site.clone(), d: 0 }); }
+            let probing = !resumed && site == "C_Send" && (state.qlen as usize) >= cfg.qsize
+                && !matches!(sched.status("worker"), Some(Status::Exited { .. }));
             if site == "C_Idle" {
                 let position = cursor.get(&actor).copied().unwrap_or(0);
                 let mut op = norm_op(&scenario.programs[&actor][position]);
@@ -559,7 +579,35 @@ impl<'a> Driver<'a> {
             }
             if site == "C_Poll" { *pending_polls.entry(actor.clone()).or_insert(0) += 1; }
             if actor == "sweeper" && site == "S_Sweep" { ctl.sweeper_holds = Some(arg); }
-            let settled = sched.step(&actor, timeout);
+            let settled = if resumed {
+                ctl.blocked = None;
+                Ok(sched.status(&actor).unwrap())
+            } else if probing {
+                // the queue is full: the send must not return before the worker has made room
+                sched.grant(&actor);
+                match sched.wait_settled(&actor, Duration::from_millis(120)) {
+                    Ok(status) => Ok(status),
+                    Err(_) => {
+                        ctl.blocked = Some((actor.clone(), arg));
+                        held_events.extend(sched.drain_events().into_iter().filter(|ev| ev.role == actor));
+                        self.emit(&StepRec {
+                            t: "note".to_string(), run: self.run_no, i: step_no, actor: actor.clone(), site: "E_Blocked".to_string(), arg: 0,
+                            next: "C_Send".to_string(), narg: 0, op: idle_op(), ret: RetRec { st: -1, v: -1, exp: -1, ..Default::default() },
+                            ev: Vec::new(), truth: Vec::new(), freq: Vec::new(), pc: ctl.pcs(), s: state.clone(), unb: 0, cfg: None,
+                        });
+                        step_no -= 1;
+                        continue;
+                    }
+                }
+            } else { sched.step(&actor, timeout) };
+            // a blocked sender comes loose when the worker takes a command off the queue: wait for it, so that the state
+            // recorded for this step is not taken while it is pushing
+            let mut unb = 0;
+            if let Some((blocked, _)) = ctl.blocked.clone() {
+                if actor == "worker" && (site == "W_Recv" || site == "W_Drain") && settled.is_ok() {
+                    if sched.wait_settled(&blocked, Duration::from_millis(1500)).is_ok() { unb = 1; }
+                }
+            }
             let (next, narg) = match settled {
                 Ok(Status::Parked { site, arg }) => (site, arg),
                 Ok(Status::Exited { panicked }) => (if panicked { "DEAD".to_string() } else { "END".to_string() }, 0),
@@ -590,7 +638,17 @@ impl<'a> Driver<'a> {
             if actor == "sweeper" && (next == "S_Done" || next == "S_Tick" || next == "END" || next == "DEAD") { ctl.sweeper_holds = None; }
             // events, with acknowledgement pointers replaced by small numbers
             let mut events = Vec::new();
-            for ev in sched.drain_events() {
+            let mut drained = sched.drain_events();
+            if resumed {
+                let mut all = std::mem::take(&mut held_events);
+                all.extend(drained);
+                drained = all;
+            } else if let Some((blocked, _)) = &ctl.blocked {
+                let (theirs, others): (Vec<_>, Vec<_>) = drained.into_iter().partition(|ev| &ev.role == blocked && ev.name != "lk" && ev.name != "q");
+                held_events.extend(theirs);
+                drained = others;
+            }
+            for ev in drained {
                 if ev.name == "lk" || ev.name == "q" {
                     if let Some(locks) = self.locks.as_mut() {
                         let name = |address: i64, ctl: &Ctl| -> String {
@@ -668,7 +726,7 @@ impl<'a> Driver<'a> {
             for entry in &state.kw { id_key.insert(entry.id, entry.k); }
             self.emit(&StepRec {
                 t: "step".to_string(), run: self.run_no, i: step_no, actor: actor.clone(), site, arg: clamp(arg), next, narg: clamp(narg),
-                op, ret, ev: events, truth, freq: Vec::new(), pc: ctl.pcs(), s: state.clone(), cfg: None,
+                op, ret, ev: events, truth, freq: Vec::new(), pc: ctl.pcs(), s: state.clone(), unb, cfg: None,
             });
         }
 
@@ -677,7 +735,7 @@ impl<'a> Driver<'a> {
             t: "end".to_string(), run: self.run_no, i: step_no + 1, actor: "env".to_string(),
             site: if hang.is_some() { "E_Hang".to_string() } else if imprecise { "E_Imprecise".to_string() } else if stuck { "E_Stuck".to_string() } else { "E_End".to_string() },
             arg: 0, next: "".to_string(), narg: 0, op: idle_op(), ret: RetRec { st: -1, v: -1, exp: -1, ..Default::default() }, ev: Vec::new(), truth: Vec::new(), freq: Vec::new(),
-            pc: ctl.pcs(), s: state.clone(), cfg: None,
+            pc: ctl.pcs(), s: state.clone(), unb: 0, cfg: None,
         });
         let outcome = RunOutcome { imprecise, steps: step_no as usize, hang: hang.clone(), stuck, schedule: schedule_log };
         if hang.is_some() {
